@@ -424,6 +424,36 @@ def main(run):
                 kind, a, b, np.abs(both - (a * base + b)).max()), dict(kind=kind, scale=a, background=b)))
         else:
             distinct.add(("direct", kind))
+    # ---------------- a data object whose widths are partly zero (merged data: a few points without a resolution column):
+    # the calculator still requests the theory over every point's window and smears the points that have a width
+    from sasmodels.data import Data1D as _Data1D
+    from sasmodels.direct_model import call_kernel as _ck
+    for rep in range(3 if not thorough else 10):
+        qd = np.sort(np.array([rng.uniform(0.02, 0.25) for _ in range(rng.randint(8, 20))]))
+        dqd = rng.uniform(0.05, 0.15) * qd
+        zero_ = rng.sample(range(len(qd)), rng.randint(1, 3))
+        dqd[zero_] = 0.0
+        data = _Data1D(x=qd.copy(), y=np.ones(len(qd)), dx=dqd.copy(), dy=np.ones(len(qd)))
+        calc = DirectModel(data, model, cutoff=0.0)
+        rad = rng.uniform(40, 120)
+        got = np.asarray(calc(radius=rad, scale=1.0, background=0.0))
+        ref_res = Pinhole1D(qd, dqd)
+        kern = model.make_kernel([ref_res.q_calc])
+        want = ref_res.apply(np.asarray(_ck(kern, dict(radius=rad, scale=1.0, background=0.0), cutoff=0.0)))
+        kern.release()
+        evals += 1; stats["direct_model_partly_zero"] = stats.get("direct_model_partly_zero", 0) + 1
+        desc = dict(kind="direct-model-partly-zero", q=list(map(float, qd)), dq=list(map(float, dqd)), radius=rad)
+        lo_need, hi_need = float((qd - 2.5 * dqd).min()), float((qd + 3.0 * dqd).max())
+        qc_ = np.asarray(calc.resolution.q_calc)
+        if qc_.min() > max(lo_need, 0.02 * qd.min()) + 1e-12 or qc_.max() < hi_need - 1e-12:
+            run.add(Finding("C03:direct-model:coverage", "DirectModel on data with %d zero widths among %d points requests the theory on [%.5g, %.5g]; the resolution windows span [%.5g, %.5g]" % (
+                len(zero_), len(qd), qc_.min(), qc_.max(), lo_need, hi_need), desc))
+        elif not np.allclose(got, want, rtol=1e-10, atol=0):
+            k_ = int(np.argmax(np.abs(got / want - 1)))
+            run.add(Finding("C03:direct-model:partly-zero", "DirectModel on data with %d zero widths among %d points: I(q=%.5g, dq=%.4g) = %.8g, Pinhole1D smearing of the same theory gives %.8g" % (
+                len(zero_), len(qd), qd[k_], dqd[k_], got[k_], want[k_]), desc))
+        else:
+            distinct.add(("direct-partly-zero", rep))
     for m in metas[:4]:
         run.sample({k: (v if not isinstance(v, list) or len(v) < 8 else v[:8] + ["..."]) for k, v in m.items()})
     traces = 0
